@@ -143,7 +143,11 @@ def check_swap(ctx: Ctx, rid_pair: str, rid_region: str, pm: ParserModel) -> Non
             inner = [x for b in t.body for x in ast.walk(b) if isinstance(x, ast.Try) and x.handlers]
             for it in inner:
                 must = [x for b in it.body for x in ast.walk(b) if isinstance(x, ast.Call) and pm.resolve(fname, x) == ("self", "_next_token_must_be") and x.args and norm(x.args[0]) == "PhonyEnding.type"]
-                last_ok = bool(must) and isinstance(it.body[-1], ast.Expr) and it.body[-1].value is must[-1]
+                # the placeholder is required last: nothing after it in the trial body calls anything (plain copies are fine)
+                last_ok = False
+                if must:
+                    idx = [i for i, b in enumerate(it.body) if any(x is must[-1] for x in ast.walk(b))]
+                    last_ok = bool(idx) and isinstance(it.body[idx[0]], ast.Expr) and it.body[idx[0]].value is must[-1] and not any(isinstance(x, ast.Call) for b in it.body[idx[0] + 1:] for x in ast.walk(b))
                 has = [x for b in it.orelse for x in ast.walk(b) if isinstance(x, ast.Call) and (attr_chain(x.func) or ("",))[-1] == "has_tokens"]
                 ctx.ob(rid_region, f"parser:CxxParser.{fname}|type kept only if it spans the whole argument", last_ok and bool(has),
                        msg="the trial no longer ends by requiring the placeholder token and an empty bounded stream: a type that covers only a prefix of the argument would be reported",
